@@ -1313,6 +1313,13 @@ def special_shapes():
         ("Pow(a,-1/2)!", lambda S, a, b, c: U(S, S.Pow, a, S.Rational(-1, 2))),
         ("Pow(a,0.5)!", lambda S, a, b, c: U(S, S.Pow, a, S.Float(0.5))),
         ("Pow(a,-0.5)!", lambda S, a, b, c: U(S, S.Pow, a, S.Float(-0.5))),
+        # powers of powers that sympy leaves nested because merging the exponents is wrong off the positive axis
+        ("sqrt(a**2)", lambda S, a, b, c: S.sqrt(a ** 2)),
+        ("(a**2)**(3/2)", lambda S, a, b, c: (a ** 2) ** S.Rational(3, 2)),
+        ("(a**4)**0.25", lambda S, a, b, c: (a ** 4) ** 0.25),
+        ("(a**-2)**(1/2)", lambda S, a, b, c: (a ** -2) ** S.Rational(1, 2)),
+        ("(a**2)**(1/3)*b", lambda S, a, b, c: (a ** 2) ** S.Rational(1, 3) * b),
+        ("sqrt((a-b)**2)", lambda S, a, b, c: S.sqrt((a - b) ** 2)),
         ("a-b*c", lambda S, a, b, c: a - b * c),
         ("a-(b+c)", lambda S, a, b, c: a - (b + c)),
         ("(a-b)/(a+b)", lambda S, a, b, c: (a - b) / (a + b)),
